@@ -171,7 +171,12 @@ func WorkerMain(args []string) int {
 			if o.Stats != nil {
 				agg.Merge(o.Stats)
 				if nontrivial(*prop, o.Stats) {
-					res.Hashes = append(res.Hashes, opsHash(o.RF))
+					h := opsHash(o.RF)
+					res.Hashes = append(res.Hashes, h)
+					// position-enumeration engines: every (run, position) pair is a distinct case
+					for k := 1; k < o.Evals; k++ {
+						res.Hashes = append(res.Hashes, h+uint64(k)*0x9e3779b97f4a7c15)
+					}
 				}
 			}
 			if len(res.Samples) < 2 && o.NOps > 3 && *shard == 0 {
